@@ -202,6 +202,7 @@ Proof.
   - repeat constructor. apply incl_nil_l.
   - constructor; [|constructor]. split; [|reflexivity]. cbn. intros y [<-|[]]. now left.
   - constructor; [split; [apply incl_nil_l|reflexivity]|apply Hins].
+  - constructor; [|constructor]. split; [|reflexivity]. cbn. apply incl_refl.
 Qed.
 
 (* ================================================================ C11 *)
